@@ -168,6 +168,9 @@ def regen_and_tie(tie_modules):
             tie_modules = [m for m in tie_modules if m not in EXPANDED_TIES]
     rc, out = sh(cmd)
     logs += out
+    translator_crashed = rc not in (0, 1)      # 0: everything translated, 1: some item refused; anything else: the translator died
+    if translator_crashed:
+        logs += f"rs2lean ended abnormally (rc={rc}): every tie of this run counts as broken\n"
     if skipped:
         logs += "skipped (no nightly toolchain): " + " ".join(skipped) + "\n"
     notes = {}
@@ -185,6 +188,9 @@ def regen_and_tie(tie_modules):
                           ("Gen/" + m.split(".")[-1] + ".lean") in l]
             if errs or failed_dep or re.search(r"^- " + re.escape(m) + r"$", out, flags=re.M):
                 broken[m] = (errs or failed_dep or ["build failed"])[0][:300]
+    if translator_crashed:
+        for m in tie_modules:
+            broken.setdefault(m, "rs2lean ended abnormally: the generated definitions are not those of the current source")
     return broken, logs, time.time() - t0
 
 
